@@ -328,6 +328,10 @@ func run(r *core.Run) {
 		// generated captures cut in two and decoded one after the other (shared with C19)
 		c19.CrossCapture(r)
 	}
+	if only == "" || only == "valhist" {
+		// evaluation histories on one decoded value (options set and unset)
+		valueHistories(r)
+	}
 }
 
 // parent: free running -race supplement (thorough tier; the race build is prepared by ./check)
@@ -390,6 +394,8 @@ func replay(r *core.Run, raw json.RawMessage) bool {
 	switch k.Kind {
 	case "sched":
 		return replaySched(r, raw)
+	case "valhist":
+		return replayValHist(r, raw)
 	default:
 		histories(sub)
 	}
